@@ -338,6 +338,10 @@ def run(chk: common.Check):
     # injectivity on the property's alphabet (canonical titles: no underscore, no edge/double blanks)
     inj_alpha = "abzAZ09 -.~äж日"
     seen_names = {}
+    # the three hypotheses of c14_fs_escape_injective about str.isspace and \w, on this interpreter
+    import re as _re
+    if "~".isspace() or not _re.match(r"\w", "_") or not all(_re.match(r"\w", d) for d in "0123456789"):
+        viol.append({"why": "the interpreter's str.isspace / \\w do not satisfy the hypotheses of c14_fs_escape_injective"})
     for _ in range(20000 if tier == "thorough" else 4000):
         t = " ".join("".join(rng.choice(inj_alpha) for _ in range(rng.randint(0, 7))).split())
         if not t:
